@@ -8,7 +8,8 @@ MODULE = 'Props.C04'
 THEOREMS = ['C04_unregistered_reports_nothing', 'C04_no_crosstalk', 'C04_fresh_twins_distinct_partial',
             'C04_unregistered_twin_refuted', 'C04_padding_collision_refuted']
 LEVEL = 'proof'
-FEATURES = [{'twins'}, {'twinfile'}, {'twins', 'twinfile', 'gen'}, {'twins', 'rec'}, {'twinfile', 'gen'}, {'twins', 'twinfile'}, {'twinfile', 'addmod'}, {'twinfile', 'addmod', 'gen'}]
+FEATURES = [{'twins'}, {'twinfile'}, {'twins', 'twinfile', 'gen'}, {'twins', 'rec'}, {'twinfile', 'gen'}, {'twins', 'twinfile'}, {'twinfile', 'addmod'}, {'twinfile', 'addmod', 'gen'},
+            {'twinfile', 'regmodes'}, {'twinfile', 'regmodes', 'twins'}, {'twinfile', 'regmodes', 'gen'}]
 
 PADCOLLIDE = dict(
     files=[('main.py', '''# fixed: five byte-identical twins at the same line numbers of five files; g registered three times
